@@ -398,7 +398,7 @@ def extract(x, hi, lo):
             return extract(b, hi, lo)
         if lo >= b.w:
             return extract(a, hi - b.w, lo - b.w)
-        return concat(extract(a, hi - b.w, 0), extract(b, b.w - 1, lo), b.w - lo)
+        return concat_w(extract(a, hi - b.w, 0), hi - b.w + 1, extract(b, b.w - 1, lo), b.w - lo)
     if op == 'ite':
         ic = _ite_consts(x)
         if ic is not None:
